@@ -884,8 +884,23 @@ def gen_variant_case(rng, nper_max=8):
         mcs.append(mc)
     nper = rng.randint(3, nper_max)
     data = gen_data(rng, mc0, nper)
-    data["std_e_t"] = None; data["std_w_t"] = None
-    return {"mcs": mcs, "data": data}
+    # options that each work alone must also work with several variants: variance rescaling, deviation mode, stds from data
+    return {"mcs": mcs, "data": data, "rescale": bool(rng.chance(0.5)), "deviation": bool(rng.chance(0.3))}
+
+
+def variant_subcases(case):
+    """the single-variant e2e case of every variant.  All variants see the same databox; in deviation mode it holds the data minus
+    the steady state of variant 0, so variant v's level-equivalent data are shifted by the difference of the steady states"""
+    out = []
+    dev = bool(case.get("deviation"))
+    y0bar = steady_logscale(case["mcs"][0])[1] if dev else None
+    for mc in case["mcs"]:
+        data = case["data"]
+        if dev:
+            yv = steady_logscale(mc)[1]
+            data = dict(data); data["y"] = [list(np.array(r, dtype=float) - y0bar + yv) for r in case["data"]["y"]]
+        out.append({"mc": mc, "data": data, "deviation": dev, "rescale": bool(case.get("rescale"))})
+    return out
 
 
 def json_copy(x):
@@ -918,8 +933,11 @@ def run_variants(case, **extra):
     data = case["data"]
     m = build_model_variants(case["mcs"])
     start, span = e2e_span(data["nper"])
-    db = databox_of(case["mcs"][0], data, start)
-    out, info = m.kalman_filter(db, span, return_info=True, **extra)
+    dev = bool(case.get("deviation"))
+    db = databox_of(case["mcs"][0], data, start, deviation_of=steady_logscale(case["mcs"][0])[1] if dev else None)
+    kw = dict(return_info=True, stds_from_data=data["std_e_t"] is not None, deviation=dev, rescale_variance=bool(case.get("rescale")))
+    kw.update(extra)
+    out, info = m.kalman_filter(db, span, **kw)
     return m, db, span, out, info
 
 
@@ -962,25 +980,36 @@ def gen_sequence_case(rng, nper_max=8):
             if rng.chance(0.2): we[t][j] = r2(rng, -0.5, 0.5)
     if not any(any(r) for r in ae):
         ae[nper - 1][0] = 0.5
-    ops = rng.choice([["filter"], ["simulate", "filter"], ["simulate", "filter"], ["filter", "simulate", "filter"]])
+    # every op sees the anticipated shocks only up to its own horizon (last period with a non-zero anticipated value): the horizons of
+    # consecutive ops on the same object grow, shrink or stay
+    pat = rng.choice([["filter"], ["simulate", "filter"], ["filter", "filter"], ["filter", "filter", "filter"],
+                      ["filter", "simulate", "filter"], ["simulate", "filter", "filter"]])
+    ops = [[op, rng.randint(1, nper - 1)] for op in pat]
+    if len(ops) > 1 and rng.chance(0.6):
+        hs = sorted(h for _, h in ops)
+        if hs[0] == hs[-1]: hs[0] = max(1, hs[-1] - 2)
+        ops = [[op, h] for (op, _), h in zip(ops, hs)]            # increasing horizons: cached expansions get extended
+    for _, h in ops:
+        if not any(ae[h]): ae[h][0] = 0.5
     return {"mc": mc, "data": data, "deviation": False, "rescale": False, "u_mean": ue, "ant": ae, "w_mean": we, "ops": ops}
 
 
 def run_sequence(case):
-    """the listed operations on ONE solved model object; returns the outputs of the last filter call"""
+    """the listed operations on ONE solved model object; returns one (db, span, out, info, ant) per filter call"""
     import irispie as ir
     mc, data = case["mc"], case["data"]
     m = build_model(mc)
     start, span = e2e_span(data["nper"])
-    db = databox_of(mc, data, start)
     nper = data["nper"]
-    for j in range(len(mc["std_e"])):
-        db[f"e{j}"] = ir.Series(start=start, values=np.array([r[j] for r in case["u_mean"]], dtype=float))
-        db[f"ant_e{j}"] = ir.Series(start=start, values=np.array([r[j] for r in case["ant"]], dtype=float))
-    for j in range(len(mc["std_w"])):
-        db[f"w{j}"] = ir.Series(start=start, values=np.array([r[j] for r in case["w_mean"]], dtype=float))
-    res = None
-    for op in case["ops"]:
+    results = []
+    for op, h in case["ops"]:
+        ant = [list(r) if t <= h else [0.0] * len(r) for t, r in enumerate(case["ant"])]
+        db = databox_of(mc, data, start)
+        for j in range(len(mc["std_e"])):
+            db[f"e{j}"] = ir.Series(start=start, values=np.array([r[j] for r in case["u_mean"]], dtype=float))
+            db[f"ant_e{j}"] = ir.Series(start=start, values=np.array([r[j] for r in ant], dtype=float))
+        for j in range(len(mc["std_w"])):
+            db[f"w{j}"] = ir.Series(start=start, values=np.array([r[j] for r in case["w_mean"]], dtype=float))
         if op == "simulate":
             sdb = ir.Databox.steady(m, span)
             for j in range(len(mc["std_e"])):
@@ -988,5 +1017,6 @@ def run_sequence(case):
                 sdb[f"e{j}"] = db[f"e{j}"].copy()
             m.simulate(sdb, span, method="first_order")
         else:
-            res = m.kalman_filter(db, span, return_info=True, shocks_from_data=True)
-    return m, db, span, res[0], res[1]
+            out, info = m.kalman_filter(db, span, return_info=True, shocks_from_data=True)
+            results.append((db, span, out, info, ant))
+    return m, results
